@@ -4,6 +4,7 @@ import (
 	"bytes"
 	"fmt"
 	"net"
+	"time"
 
 	"github.com/refraction-networking/conjure/pkg/transports"
 	pb "github.com/refraction-networking/conjure/proto"
@@ -139,8 +140,11 @@ func (Transport) WrapConnection(data *bytes.Buffer, c net.Conn, phantom net.IP, 
 
 		mc := transports.PrependToConn(c, data)
 		wrapped, err := factory.WrapConn(mc)
+		if err != nil {
+			return r, wrapped, err
+		}
 
-		return r, wrapped, err
+		return r, deadlineConn{Conn: wrapped, raw: c}, nil
 	}
 
 	// If we read more than min handshake len, but less than max and didn't find
@@ -154,6 +158,18 @@ func (Transport) WrapConnection(data *bytes.Buffer, c net.Conn, phantom net.IP, 
 	// for the given phantom.
 	return nil, nil, transports.ErrNotTransport
 }
+
+// deadlineConn delegates SetDeadline and SetWriteDeadline to the underlying connection. The
+// upstream obfs4 connection answers both with ENOTSUP; the station's relay arms deadlines on
+// both of its connections and gives up when that fails, so without this no obfs4 session ever
+// relayed a byte (and the classification deadline was never cleared).
+type deadlineConn struct {
+	net.Conn
+	raw net.Conn
+}
+
+func (c deadlineConn) SetDeadline(t time.Time) error      { return c.raw.SetDeadline(t) }
+func (c deadlineConn) SetWriteDeadline(t time.Time) error { return c.raw.SetWriteDeadline(t) }
 
 // This function makes the assumption that any identifier with length 52 is an obfs4 registration.
 // This may not be strictly true, but any other identifier will simply fail to form a connection and
